@@ -30,6 +30,9 @@ func NewADTSHeader(samplingFrequency int, channelConfig byte, objectType byte, p
 	if !ok {
 		return nil, fmt.Errorf("sampling frequency %d not supported", samplingFrequency)
 	}
+	if channelConfig > 7 {
+		return nil, fmt.Errorf("channel configuration %d does not fit the 3-bit ADTS field", channelConfig)
+	}
 	return &ADTSHeader{
 		ObjectType:             objectType,
 		SamplingFrequencyIndex: sfi,
